@@ -80,6 +80,7 @@ type State struct {
 	callRes    map[string][]Term // results of calls on this path, by site name ("call.Recv#1")
 	lockSnap   map[string]map[string]Term // monitor key+owner -> heap at the last Lock
 	lastLock   map[string]Term            // heap right after the most recent monitor Lock
+	unlockSnap map[string]map[string]Term // monitor key+owner -> heap at this thread's last Unlock
 	loopFrames []string                   // "loopOrd|heapvar": automatic frame invariants in force
 	joins      []*pendingJoin             // goroutines spawned with a WaitGroup debt, not yet joined
 }
@@ -99,7 +100,7 @@ type arrInfo struct {
 
 func (st *State) clone() *State {
 	n := &State{fx: st.fx, alloc: st.alloc, dead: st.dead, entryHeap: st.entryHeap, callDepth: st.callDepth,
-		deferStack: st.deferStack, dargs: st.dargs, decrVals: st.decrVals, retSite: st.retSite, callRes: st.callRes, lockSnap: st.lockSnap, lastLock: st.lastLock, loopFrames: st.loopFrames, joins: st.joins}
+		deferStack: st.deferStack, dargs: st.dargs, decrVals: st.decrVals, retSite: st.retSite, callRes: st.callRes, lockSnap: st.lockSnap, lastLock: st.lastLock, unlockSnap: st.unlockSnap, loopFrames: st.loopFrames, joins: st.joins}
 	n.vals = make(map[ssa.Value]Term, len(st.vals))
 	for k, v := range st.vals {
 		n.vals[k] = v
